@@ -94,9 +94,12 @@ func c10CoreBody(rc *RunCtx) {
 				with = "new"
 			}
 			if err != nil {
+				// soft: the run goes on (the interrupted rekey / root rotation are
+				// known findings F6 / F20 and would otherwise mask everything that
+				// follows them in a history)
 				sig["unsealed_with"] = "none"
-				viol("unsealable-after-crash", sig, "after a crash at write %d of %d inside %s neither the shares the operator holds nor the new ones unseal the server: %v", k-from, to-from, op, err)
-				return false
+				s.ViolateSoft("C10", "unsealable-after-crash", sig, "after a crash at write %d of %d inside %s neither the shares the operator holds nor the new ones unseal the server: %v; history: %v", k-from, to-from, op, err, hist)
+				continue
 			}
 			ok := true
 			if with == "new" && k < to {
@@ -115,6 +118,88 @@ func c10CoreBody(rc *RunCtx) {
 		return true
 	}
 
+	// storage error (not a crash) at the k-th write of a key operation, the
+	// node keeps running: the operation reports failure (or success), the
+	// operator carries on - a root key rotation, a seal, an unseal with the
+	// shares that are valid according to what the operation REPORTED - and
+	// everything written earlier must still be readable.
+	faultChecks := 0
+	type keyOp func(x *CoreH, keys [][]byte, thr int) (newKeys [][]byte, newThr int, err error)
+	faultCheck := func(op string, from int, writes int, keys [][]byte, thr int, run keyOp) bool {
+		for k := 1; k <= writes && s.Viol == nil; k++ {
+			faultChecks++
+			fd := disk.ForkAt(from, s)
+			x0 := *h
+			x0.Keys, x0.Opts.Thresh = keys, thr
+			x, err := Reboot(fd, &x0)
+			if err != nil {
+				panic(fmt.Sprint("reboot before fault run: ", err))
+			}
+			fd.FailPrefix, fd.FailOps, fd.FailNth = "", "put del tx-put tx-del commit", k
+			nk, nt, operr := run(x, keys, thr)
+			fired := fd.FailHits > 0
+			fd.FailNth = 0
+			if fired {
+				s.Faults["err-na"]++
+			}
+			curKeys, curThr := keys, thr
+			if operr == nil && nk != nil {
+				curKeys, curThr = nk, nt
+			}
+			sig := map[string]any{"op": op, "level": "core", "failed_write": k, "op_reported_error": operr != nil}
+			follow := tp.Pick(3)
+			sig["then"] = []string{"restart", "rotate-root+restart", "rotate+restart"}[follow]
+			switch follow {
+			case 1:
+				x.RootWrite("sys/rotate/root", nil)
+			case 2:
+				x.RootWrite("sys/rotate", nil)
+			}
+			x.Shutdown()
+			y0 := x0
+			y0.Keys, y0.Opts.Thresh = curKeys, curThr
+			y, err := Reboot(fd.Fork(s), &y0)
+			if err != nil {
+				viol("unsealable-after-failed-operation", sig, "%s hit a storage error at its write %d of %d (the operation reported: %v); after %s the shares the operator holds (%d-of-%d) no longer unseal the server: %v", op, k, writes, operr, sig["then"], curThr, len(curKeys), err)
+				return false
+			}
+			ok := readAll(y, sig, fmt.Sprintf("after a storage error at write %d of %d inside %s, then %s", k, writes, op, sig["then"]))
+			y.Shutdown()
+			if !ok {
+				return false
+			}
+		}
+		return true
+	}
+	doRekey := func(n2, t2 int) keyOp {
+		return func(x *CoreH, keys [][]byte, thr int) ([][]byte, int, error) {
+			if cerr := x.Core.RekeyInit(&vault.SealConfig{SecretShares: n2, SecretThreshold: t2}, false); cerr != nil {
+				return nil, 0, cerr
+			}
+			conf, cerr := x.Core.RekeyConfig(false)
+			if cerr != nil || conf == nil {
+				return nil, 0, fmt.Errorf("rekey config: %v", cerr)
+			}
+			ctx := namespace.RootContext(context.Background())
+			var res *vault.RekeyResult
+			for j := 0; j < thr; j++ {
+				r, cerr := x.Core.RekeyUpdate(ctx, append([]byte{}, keys[j]...), conf.Nonce, false)
+				if cerr != nil {
+					return nil, 0, cerr
+				}
+				res = r
+			}
+			if res == nil {
+				return nil, 0, fmt.Errorf("no result")
+			}
+			return res.SecretShares, t2, nil
+		}
+	}
+	doRotateRoot := func(x *CoreH, keys [][]byte, thr int) ([][]byte, int, error) {
+		_, err := x.RootWrite("sys/rotate/root", nil)
+		return nil, 0, err
+	}
+
 	steps := 2 + tp.Pick(4)
 	for i := 0; i < steps && s.Viol == nil; i++ {
 		switch tp.Pick(5) {
@@ -126,6 +211,9 @@ func c10CoreBody(rc *RunCtx) {
 				return
 			}
 			if !crashCheck("rotate-root", from, h.Keys, t, nil, 0) {
+				return
+			}
+			if !faultCheck("rotate-root", from, disk.LogLen()-from, h.Keys, t, doRotateRoot) {
 				return
 			}
 			write(300 + i)
@@ -215,6 +303,7 @@ func c10CoreBody(rc *RunCtx) {
 			ctx := namespace.RootContext(context.Background())
 			var res *vault.RekeyResult
 			from := disk.LogLen()
+			rekeyFrom := disk.LogLen()
 			for j := 0; j < t; j++ {
 				from = disk.LogLen()
 				r, cerr := h.Core.RekeyUpdate(ctx, append([]byte{}, h.Keys[j]...), conf.Nonce, false)
@@ -232,6 +321,9 @@ func c10CoreBody(rc *RunCtx) {
 				return
 			}
 			if !crashCheck("barrier-rekey", from, h.Keys, t, res.SecretShares, t2) {
+				return
+			}
+			if !faultCheck("barrier-rekey", rekeyFrom, disk.LogLen()-rekeyFrom, h.Keys, t, doRekey(n2, t2)) {
 				return
 			}
 			h.Keys, h.Opts.Shares, h.Opts.Thresh = res.SecretShares, n2, t2
@@ -254,7 +346,8 @@ func c10CoreBody(rc *RunCtx) {
 		}
 	}
 	s.ProbeN("crash_prefixes", crashes)
-	rc.Res.Evals = crashes + 1
+	s.ProbeN("failed_write_runs", faultChecks)
+	rc.Res.Evals = crashes + faultChecks + 1
 	s.Steps += crashes
 	rc.Res.Sample = map[string]any{"mode": "core", "history": hist, "crash_prefixes": crashes}
 	rc.Res.StateSig = fmt.Sprintf("core/%v", hist)
